@@ -130,6 +130,14 @@ def gen_case(rng):
                     bands[b][r][c] = 1
                 elif not nothing and representable and rng.random() < (0.3 if (r in (0, rows - 1) or c in (0, cols - 1)) else 0.1) * (0.5 if nb > 1 else 1):
                     bands[b][r][c] = nodata
+    # samples very close to, but different from, a finite nodata value: they are ordinary samples ("equals" means equals)
+    if isfloat and not isinstance(nodata, str) or (isfloat and isinstance(nodata, str) and "/" in nodata):
+        nd = core.Fraction(nodata) if not isinstance(nodata, str) else core.Fraction(nodata)
+        if rng.random() < 0.5:
+            eps = core.Fraction(1, 1024) if abs(nd) > 100 else core.Fraction(1, 2 ** 20)
+            for _ in range(rng.randrange(1, 4)):
+                b, r, c = rng.randrange(nb), rng.randrange(rows), rng.randrange(cols)
+                bands[b][r][c] = core.enc(nd + rng.choice([-1, 1]) * eps)
     names = [None] * nb
     if nb > 1 and rng.random() < 0.8:
         names = rng.sample(["r", "g", "b", "nir", "swir"], nb)
